@@ -1,7 +1,8 @@
 (* C19 - The copy-on-write B-tree is a correct sorted map with isolated clones.
    Statements only; proofs are in Proofs/BTree*.v, the model in Model/BTreeM.v. *)
 From DV Require Import Base.Prelude Model.BTreeM Proofs.BTreeBase Proofs.BTreeWf Proofs.BTreeInsert
-  Proofs.BTreeLookup Proofs.BTreeDelete Proofs.BTreeTop.
+  Proofs.BTreeLookup Proofs.BTreeDelete Proofs.BTreeTop
+  Model.BTreeStoreM Proofs.BTreeStore Proofs.BTreeIsolation.
 
 (* _Node.search_in_node (shortcut + binary search) on a key-sorted node = linear search *)
 Theorem search_spec : forall k es, ksorted es -> search k es = Ok (lsearch k es).
@@ -74,6 +75,30 @@ Theorem frozen_rejects : forall b e io k exact,
 Proof. exact frozen_rejects_proof. Qed.
 Print Assumptions frozen_rejects.
 
+(* Copy-on-write isolation, on the store-level model (nodes with ids and creator tags, in-place
+   writes, maybe_cow / maybe_cow_child / clone allocate).  After ANY history of operations
+   (new trees, inserts, deletes, freezes, clones - `execs`), one more operation on a tree leaves
+   every other tree of the world - originals and clones alike - with the same root pointer and
+   the same value-level tree (`abs`, for every depth), because a mutation writes only nodes
+   tagged with the mutating tree's own creator (Proofs/BTreeStore.v) and no other tree can
+   reach such a node (invariant WI, proved for every reachable world).
+   `_partial`: the model's delete carries one ghost check that Python does not have (the child
+   found again after rebalancing is written without maybe_cow_child; the model stops with
+   eForeign if that child is not owned).  That the check never fires needs the store/value
+   refinement, which is not proved; it is exercised by the correspondence (997 never occurs). *)
+Theorem cow_isolated_partial : forall xs x w' o,
+  let w := execs (mkSW [] []) xs in
+  exec w x = (w', o) ->
+  forall k bk, target x <> Some k -> nth_error (sw_trees w) k = Some bk ->
+    nth_error (sw_trees w') k = Some bk /\
+    forall fuel, abs fuel (sw_store w') (sb_root bk) = abs fuel (sw_store w) (sb_root bk).
+Proof. exact cow_isolated_proof. Qed.
+Print Assumptions cow_isolated_partial.
+
+Theorem cow_invariant_reachable : forall xs, WI (execs (mkSW [] []) xs).
+Proof. exact WI_reachable. Qed.
+Print Assumptions cow_invariant_reachable.
+
 (* non-vacuity: a three-level tree at t = 3 satisfies wf *)
 Example wf_inhabited :
   wf 3 (Node false [(8,8)]
@@ -83,3 +108,14 @@ Proof. apply wf_b_iff. vm_compute. reflexivity. Qed.
 
 Example bwf_inhabited : bwf (mkB 3 (Node true [] []) 0 false false).
 Proof. split; [apply wf_b_iff; reflexivity|reflexivity]. Qed.
+
+(* non-vacuity of the isolation statement: freeze tree 0, clone it, insert into the clone; the
+   original still abstracts to the tree it had *)
+Example cow_isolated_inhabited :
+  let xs := [SNew 3 0; SIns 0 1 1 None true; SIns 0 2 2 None true; SFreeze 0; SClone 0 false] in
+  let w := execs (mkSW [] []) xs in
+  let w' := fst (exec w (SIns 1 3 3 None true)) in
+  length (sw_trees w') = 2%nat /\
+  abs 3 (sw_store w') 0 = Some (Node true [(1, 1); (2, 2)] []) /\
+  abs 3 (sw_store w') 1 = Some (Node true [(1, 1); (2, 2); (3, 3)] []).
+Proof. vm_compute. repeat split. Qed.
